@@ -1176,8 +1176,14 @@ impl World {
     /// human-readable rendering of the packets the tap recorded from index `from` on
     pub fn describe_pkts(&self, from: usize) -> String {
         let t = self.tap.lock().unwrap();
+        describe_pkt_list(t.pkts.iter().skip(from))
+    }
+}
+
+pub fn describe_pkt_list<'a>(pkts: impl Iterator<Item = &'a crate::tap::PktRec>) -> String {
+    {
         let mut out = String::new();
-        for p in t.pkts.iter().skip(from) {
+        for p in pkts {
             let (fr, ok) = crate::wire::frames(&p.payload);
             out.push_str(&format!("[{}{} pn={}{}", if p.enc { "" } else { if p.ok { "rx " } else { "rx-FAIL " } }, p.space.name(), p.pn, if p.rewritten { " REWRITTEN" } else { "" }));
             for f in &fr {
@@ -1208,7 +1214,9 @@ impl World {
         }
         out
     }
+}
 
+impl World {
     /// A drained connection produces no further output, whatever it is fed (C08 / C20).
     pub fn check_drained_silence(&mut self) {
         let later = self.instant() + Duration::from_secs(1);
